@@ -342,3 +342,73 @@ Theorem C03_records_exact_carv2_partial_as_found :
     = Ok (section_recs o (hlen roots) bs).
 Proof. exact load_index_as_found_seek_v2. Qed.
 Print Assumptions C03_records_exact_carv2_partial_as_found.
+
+(* ---- (8) GenerateIndexFromFile ---------------------------------------------------------------------------- *)
+From GoCarProofs Require Import IndexGetFirst.
+
+(* it is GenerateIndex over the opened file (a seekable source); a path that cannot be opened is an error *)
+Theorem C03_generate_index_from_file_is_generate_index :
+  forall (srt : list irec -> list irec) hdrdec codec o all,
+    generate_index_from_file_with srt hdrdec codec o (Some all) = generate_index_with srt hdrdec codec SrcSeek o all
+    /\ generate_index_from_file_with srt hdrdec codec o None = Err EOther.
+Proof. exact generate_index_from_file_is_generate_index. Qed.
+Print Assumptions C03_generate_index_from_file_is_generate_index.
+
+(* hence, for a CARv1 file and for a CARv2 file with any padding and trailer: the index of exactly the
+   section records (to which C03_lookup_exact / _sound / _not_found_iff_absent apply) *)
+Theorem C03_generate_index_from_file_valid :
+  forall (srt : list irec -> list irec) hdrdec codec i0 o hi lo ioff pad roots bs trailer,
+    idx_new codec = Some i0 ->
+    pragma_ok hdrdec o -> header_ok hdrdec o roots -> blocks_ok bs -> cids_fit o bs ->
+    hi < two64 -> lo < two64 -> ioff < two63 ->
+    blen (v2_container hi lo ioff pad (enc_payload roots bs) trailer) < two63 ->
+    generate_index_from_file_with srt hdrdec codec o (Some (enc_payload roots bs))
+    = Ok (idx_load_with srt (section_recs o (hlen roots) bs) i0) /\
+    generate_index_from_file_with srt hdrdec codec o (Some (v2_container hi lo ioff pad (enc_payload roots bs) trailer))
+    = Ok (idx_load_with srt (section_recs o (hlen roots) bs) i0).
+Proof. exact generate_index_from_file_valid. Qed.
+Print Assumptions C03_generate_index_from_file_valid.
+
+(* ---- (9) ApplyOptions: the option plumbing shared by every entry point ---------------------------------------
+   [apply_options l] (theories/Options.v): options applied in order, then zero IndexCodec /
+   MaxIndexCidSize replaced by their defaults and MaxIndexCidSize capped at an index record's capacity. *)
+From GoCar Require Import Options.
+From GoCarProofs Require Import OptionsFacts.
+
+(* zero => default: whatever the list, the resolved IndexCodec is never 0 and MaxIndexCidSize is in
+   (0, 32 MiB - 8]; an explicit zero gives exactly the default.  (A zero MaxAllowedHeaderSize /
+   MaxAllowedSectionSize is NOT replaced: it stays 0.) *)
+Theorem C03_apply_options_zero_means_default :
+  forall l,
+    op_index_codec (apply_options l) <> 0 /\
+    0 < op_max_index_cid (apply_options l) <= opt_max_indexable_cid /\
+    op_index_codec (apply_options (l ++ [OUseIndexCodec 0])) = opt_default_codec /\
+    op_max_index_cid (apply_options (l ++ [OMaxIndexCidSize 0])) = opt_default_max_cid /\
+    op_max_header (apply_options (l ++ [OMaxAllowedHeaderSize 0])) = 0 /\
+    op_max_section (apply_options (l ++ [OMaxAllowedSectionSize 0])) = 0.
+Proof. exact apply_options_zero_means_default. Qed.
+Print Assumptions C03_apply_options_zero_means_default.
+
+(* a later option for the same field wins; options for distinct fields commute *)
+Theorem C03_apply_options_later_wins :
+  forall l1 a b l2, opt_field a = opt_field b ->
+    apply_options (l1 ++ a :: b :: l2) = apply_options (l1 ++ b :: l2).
+Proof. exact apply_options_later_wins. Qed.
+Print Assumptions C03_apply_options_later_wins.
+
+Theorem C03_apply_options_order_insensitive_for_distinct_fields :
+  forall l1 a b l2, opt_field a <> opt_field b ->
+    apply_options (l1 ++ a :: b :: l2) = apply_options (l1 ++ b :: a :: l2).
+Proof. exact apply_options_distinct_fields_commute. Qed.
+Print Assumptions C03_apply_options_order_insensitive_for_distinct_fields.
+
+(* idempotent: passing the same options a second time changes nothing, and resolving is a projection *)
+Theorem C03_apply_options_idempotent :
+  forall l, apply_options (l ++ l) = apply_options l.
+Proof. exact apply_options_idempotent. Qed.
+Print Assumptions C03_apply_options_idempotent.
+
+Theorem C03_apply_options_finalize_idempotent :
+  forall r, options_finalize (options_finalize r) = options_finalize r.
+Proof. exact options_finalize_idempotent. Qed.
+Print Assumptions C03_apply_options_finalize_idempotent.
